@@ -42,7 +42,7 @@ RULE = (
     "one_vs_all, indexing, 12 group_* metrics, group indexing, groupwise) interleaved with noise operations (bootstrap_sample/metric/ci), "
     "reseeds, and 0-4 planned faults. Non-trivial: >= 2 operations or >= 1 fault fired; distinct = distinct abstract trace signatures."
      " Later rounds added: argument containers and layouts (list/tuple/strided/negative-stride/Series/Fortran/transposed/big-endian), NumPy scalar kinds, "
-    "call styles, copy/pickle steps, user subclasses and configurations, extreme magnitudes and mixed dtypes, sources of 33k-70k scores, one bounded very large pointwise_cm call."
+    "call styles, copy/pickle steps, user subclasses and configurations, extreme magnitudes and mixed dtypes, sources of 33k-70k scores, one bounded very large pointwise_cm call, threshold arrays of 4096-7000 elements on the score grid with 33 elements compared to scalar calls."
 )
 COMPONENTS = {
     "real": ["score_analysis.scores / group_scores / cm / metrics / roc_curve (from /repo working tree)", "numpy global RandomState (noise operations)"],
@@ -52,7 +52,7 @@ ASSUMPTIONS = [
     "a pristine twin rebuilt from the scenario is the reference for every deterministic query: same code, so agreement means history- and RNG-independence, not functional correctness (that is C01-C09, not claimed)",
     "for a 0-d array argument either a scalar or a 0-d array result is accepted; Python and NumPy scalars count as plain scalars",
 ]
-PROBES = ["copy_roundtrip", "caller_mutates_own_array", "caller_scribbles_result", "interrupt_fired", "reentrant_callback", "callback_raise", "swap_alias", "readonly_input", "zero_size_axis", "three_d_argument",
+PROBES = ["huge_argument", "copy_roundtrip", "caller_mutates_own_array", "caller_scribbles_result", "interrupt_fired", "reentrant_callback", "callback_raise", "swap_alias", "readonly_input", "zero_size_axis", "three_d_argument",
           "scalar_argument", "noise_op", "pointwise_big", "pointwise_cells_checked", "elementwise_checked", "alias_checked", "cm_multiclass", "cm_stacked", "group_object",
           "empty_class", "int_scores", "twin_checked", "exception_agreed"]
 
@@ -80,6 +80,10 @@ SHAPES = [[], [], [1], [3], [5], [0], [2, 2], [2, 3], [2, 0, 3], [2, 1, 2], [1, 
 
 def gen_array(rnd, kind):
     shape = rnd.choice(SHAPES)
+    if kind == "thr" and rnd.random() < 0.012:
+        # thousands of thresholds on the score grid (many exact ties) against a handful of scores: the regime in which a
+        # "sort the needles / locate the scores among the thresholds instead" fast path would be taken
+        shape = rnd.choice([[rnd.randint(4096, 7000)], [70, 64], [17, 16, 16]])
     n = int(np.prod(shape)) if shape else 1
     if kind == "thr":
         data = [rnd.choice([round(rnd.uniform(-7, 7), 1), float(rnd.randint(-6, 6))]) for _ in range(n)]
@@ -937,7 +941,12 @@ def execute(scn, ctx):
                     and k in ("cm", "rate", "thr_at", "group_rate", "group_cm", "thr_at_metric"):
                 if hasattr(x, "to_numpy"):
                     x = x.to_numpy()  # a Series argument is its values in positional order
-                for raw in op.get("idx", [])[:3]:
+                raws = list(op.get("idx", [])[:3])
+                if raws and x.size >= 2048:
+                    # a very large argument: a few dozen further elements, derived from the scenario's own indices
+                    raws += [(raws[0] * 7919 + j * 104729) % x.size for j in range(1, 33)]
+                    probe("huge_argument")
+                for raw in raws:
                     flat = raw % x.size
                     idx = np.unravel_index(flat, x.shape)
                     xs = float(x[idx])
